@@ -698,6 +698,10 @@ fn judge(
         match after.get(f) {
             None => return fail("c18-missing-file", format!("exit 0 but {f} does not exist")),
             Some(t) if t == "dir" => return fail("c18-missing-file", format!("exit 0 but {f} is a directory")),
+            // never follow it: the target may be /dev/full, which reads as an endless stream of zeros
+            Some(t) if t == "symlink" => {
+                return fail("c18-missing-file", format!("exit 0 but {f} is still the symlink that was planted there: the data went elsewhere (or nowhere)"))
+            }
             _ => {}
         }
     }
